@@ -77,7 +77,8 @@ class Lab:
     """One sampler (possibly re-created from its checkpoint) + its problem."""
 
     def __init__(self, spec, cfg, use_file=False, observers=None,
-                 log_calls=True, workdir=None, clock=False, verbose=False):
+                 log_calls=True, workdir=None, clock=False, verbose=False,
+                 resume_initial=False, keep_workdir=False):
         warnings.simplefilter('ignore')
         self.spec, self.cfg = spec, cfg
         self.problem = pr.Problem(spec)
@@ -105,7 +106,8 @@ class Lab:
             self._real_time = ns.time
             ns.time = self.clock
         self.sampler = None
-        self.make(resume=False)
+        self.keep_workdir = keep_workdir
+        self.make(resume=resume_initial)
 
     # -- construction -------------------------------------------------------
     def pool_arg(self):
@@ -246,7 +248,7 @@ class Lab:
             import nautilus.sampler as ns
             ns.time = self._real_time
             self.clock = None
-        if self.workdir is not None:
+        if self.workdir is not None and not self.keep_workdir:
             shutil.rmtree(self.workdir, ignore_errors=True)
 
 
